@@ -493,6 +493,13 @@ class LayerSet(BaseObject):
             if layerData.get("default", False):
                 newDefaultLayerName = reader.getDefaultLayerName()
                 self.defaultLayer = self[newDefaultLayerName]
+                # the default layer is now the one of the UFO: no change of the
+                # default layer is left for the next save to make. (replaying
+                # the recorded ones would move the glyph directories again.)
+                self._layerActionHistory = [
+                    actionData for actionData in self._layerActionHistory
+                    if actionData["action"] != "default"
+                ]
 
     # -----------------------------
     # Serialization/Deserialization
